@@ -42,7 +42,7 @@ func MarshalText[T any](t TestingT, cases []CaseText[T]) {
 		if !assert.NoError(t, callForCase(i, &c, c.Before), failInfo) {
 			continue
 		}
-		b, err := safeMarshalText(any(c.Value).(encoding.TextMarshaler))
+		b, err := safeMarshalText(c.Value)
 		if !assert.NoError(t, callForCase(i, &c, c.After), failInfo) {
 			continue
 		}
@@ -80,7 +80,7 @@ func UnmarshalText[T any](t TestingT, cases []CaseText[T], helper TypeHelper[T])
 			continue
 		}
 		v := helperNew[T](helper, c.Value)
-		err := safeUnmarshalText(f(&v), []byte(c.Data))
+		err := safeUnmarshalText(f, &v, []byte(c.Data))
 		if !assert.NoError(t, callForCase(i, &c, c.After), failInfo) {
 			continue
 		}
@@ -96,16 +96,18 @@ func UnmarshalText[T any](t TestingT, cases []CaseText[T], helper TypeHelper[T])
 	}
 }
 
-func safeMarshalText(m encoding.TextMarshaler) (data []byte, err error) {
+func safeMarshalText(value any) (data []byte, err error) {
 	defer func() {
 		err = panicError(err, recover())
 	}()
-	return m.MarshalText()
+	// type assertion is part of protected call, value can be nil interface
+	return value.(encoding.TextMarshaler).MarshalText()
 }
 
-func safeUnmarshalText(u encoding.TextUnmarshaler, data []byte) (err error) {
+func safeUnmarshalText[T any](f func(*T) encoding.TextUnmarshaler, v *T, data []byte) (err error) {
 	defer func() {
 		err = panicError(err, recover())
 	}()
-	return u.UnmarshalText(data)
+	// call of f is part of protected call, *v can be nil interface
+	return f(v).UnmarshalText(data)
 }
